@@ -89,3 +89,29 @@ func init() {
 		}},
 	}
 }
+
+func init() {
+	properties["C03"] = &propSpec{ID: "C03",
+		Quick: tierSpec{Harnesses: []harnessSpec{
+			{Func: gp + "internal/zzverif.VC03", Discover: 3, Reach: []string{"c03.accepted"}},
+			{Func: gp + "internal/zzverif.VC03Org", Discover: 2, Digits: 5, Reach: []string{"c03o.accepted"}},
+		}},
+		Thorough: tierSpec{Harnesses: []harnessSpec{
+			{Func: gp + "internal/zzverif.VC03", Discover: 4, Params: map[string]int{"alldigits": 1, "allregs": 1}, Reach: []string{"c03.accepted"}},
+			{Func: gp + "internal/zzverif.VC03Org", Discover: 2, Digits: 5, Reach: []string{"c03o.accepted"}},
+		}},
+	}
+}
+
+func init() {
+	hs := func(long int) []harnessSpec {
+		return []harnessSpec{
+			{Func: gp + "internal/zzverif.VC05Data", Discover: 3, Params: map[string]int{"long": long, "alldigits": long}, Reach: []string{"c05.accepted"}},
+			{Func: gp + "internal/zzverif.VC05Str", Discover: 2, Reach: []string{"c05s.accepted"}},
+			{Func: gp + "internal/zzverif.VC05Resb", Discover: 2, Reach: []string{"c05r.accepted"}},
+			{Func: gp + "internal/zzverif.VC05Align", Discover: 1, Reach: []string{"c05a.accepted"}},
+			{Func: gp + "internal/zzverif.VC05Silent", Discover: 1, Reach: []string{"c05e.accepted"}},
+		}
+	}
+	properties["C05"] = &propSpec{ID: "C05", Quick: tierSpec{Harnesses: hs(0)}, Thorough: tierSpec{Harnesses: hs(1)}}
+}
